@@ -370,6 +370,10 @@ def part_seeds(report, only=None):
         vio = [l for l in p.stdout.splitlines() if l.startswith("VIOLATION")]
         det = p.returncode == 1 and bool(vio)
         res[sid] = dict(property=pid, applied=True, exit=p.returncode, violations=[v[:200] for v in vio[:4]], wall=round(time.time() - t0, 1))
+        if meta.get("detected_by_check") == "elsewhere":
+            # the same source change is stored under another property, whose check is the one that rejects it (see detection_notes)
+            print(f"selftest seeds {sid}: exit {p.returncode} -> not rejected by {pid}'s check; {meta.get('detection_notes', '')[:140]}")
+            continue
         if meta.get("detected_by_check") == "no":
             # a stored change that, on inspection, does not violate the property as stated (see its meta.json)
             print(f"selftest seeds {sid}: exit {p.returncode} -> documented as not a violation of the statement")
